@@ -2,22 +2,22 @@
 (* Scenario export of the F-Run family: histories of steps (kind "hist"), output placements (kind "place"),
    and argument vectors (kind "argv").                                                                  *)
 EXTENDS RunModel, Files, Cli, Json
-CONSTANTS ScenOut, HistLen, Variants, ArgLen, WithPlace, WithArgv
+CONSTANTS ScenOut, HistLen, Variants, ArgLen, WithPlace, WithArgv, BadKinds, LayoutSet, TagSet
 
 GenOps == {[op |-> "gen", v |-> x] : x \in Variants}
-OtherOps == {[op |-> "edit"], [op |-> "break"], [op |-> "delete"], [op |-> "guard"], [op |-> "unbad"]} \cup {[op |-> "bad", k |-> k] : k \in Faults}
+OtherOps == {[op |-> "edit"], [op |-> "break"], [op |-> "bloat"], [op |-> "scramble"], [op |-> "delete"], [op |-> "guard"], [op |-> "unbad"]} \cup {[op |-> "bad", k |-> k] : k \in BadKinds}
 AllOps == GenOps \cup OtherOps
 RECURSIVE SeqsUpTo(_)
 SeqsUpTo(n) == IF n = 0 THEN {<<>>} ELSE SeqsUpTo(n - 1) \cup {Append(a, o) : a \in {b \in SeqsUpTo(n - 1) : Len(b) = n - 1}, o \in AllOps}
 \* histories worth running: they end with a goverter run
 Hists == {Append(h, g) : h \in SeqsUpTo(HistLen - 1), g \in GenOps}
-HistScen == {[kind |-> "hist", layout |-> l, tags |-> t, steps |-> h] : l \in Layouts, t \in TagCfgs, h \in Hists}
+HistScen == {[kind |-> "hist", layout |-> l, tags |-> t, steps |-> h] : l \in LayoutSet, t \in TagSet, h \in Hists}
 
 Decls == {<<>>, <<"a">>, <<"a", "b">>}
 Exists == {"none", "same", "other"}
 PlaceScen == {[kind |-> "place", decl |-> d, ofile |-> f, opkg |-> p, exist |-> e, cwd |-> c, conv2 |-> c2,
                outdir |-> OutDir(d, f, c), outfile |-> OutFile(f), pkg |-> PkgName(d, "src", f, p, e, c)] :
-               d \in Decls, f \in OFiles, p \in OPkgs, e \in Exists, c \in CwdForms, c2 \in {"none", "same-file-same-pkg", "same-file-other-pkg", "other-file-same-pkg", "vars"}}
+               d \in Decls, f \in OFiles, p \in OPkgs, e \in Exists, c \in CwdForms, c2 \in {"none", "same-file-same-pkg", "same-file-other-pkg", "same-file-other-name", "other-file-same-pkg", "vars", "vars-path-pkg", "two-opkg-lines"}}
 PlaceOK == {s \in PlaceScen : ValidPlace(s.decl, s.ofile, s.exist, s.cwd)}
 ArgvScen == {[kind |-> "argv", argv |-> a] : a \in Argvs(ArgLen)}
 
